@@ -4,6 +4,7 @@ import re
 from .. import a10
 from .. import a5
 from .. import a7
+from .. import cfg as C
 from .. import rules as R
 
 EXPLANATION = (
@@ -153,6 +154,31 @@ def run(ctx):
             ctx.ok("C18.R3", "GTF values are quoted on both writer paths", "", fw.loc())
         else:
             ctx.violation("C18.R3", "C18.R3/unquoted/" + fw.key, "GTF value writer no longer writes the opening and closing quotation marks on every path", fw.loc())
+
+    # the tokenizer that finds the closing quotation mark runs BEFORE unescape_string: it must skip an escaped quote, or noodles'
+    # own `\"` ends the value early (genuine defect F27, repaired)
+    fps = ctx.anchor("C18.R3", "noodles_gtf::record::attributes::field::parse_string")
+    if fps is not None:
+        vals = set()
+        for g in fb.family(fps.key):
+            for blk in g.blocks:
+                for st in blk["s"]:
+                    if st[0] == "=":
+                        for o in R.rvalue_operands(st[2]):
+                            k = C.op_const(o)
+                            if k is not None and k.get("ty") == "u8" and isinstance(k.get("v"), int):
+                                vals.add(k["v"])
+                t = blk["t"]
+                if t[0] == "sw":
+                    vals |= {v for v, _tg in t[2] if isinstance(v, int)}
+        if 0x22 in vals and 0x5c in vals:
+            ctx.ok("C18.R3", fps.key + " :: the closing-quote scan knows the escape character", "compares with 0x22 and 0x5c", fps.loc())
+        elif 0x22 in vals:
+            ctx.violation("C18.R3", "C18.R3/tokenizer-ignores-escape/" + fps.key,
+                          "parse_string ends a quoted GTF value at the first `\"` without regard to a preceding backslash, while the writer emits "
+                          "`\\\"` for a quotation mark inside a value: noodles' own output is split inside the value", fps.loc())
+        else:
+            ctx.violation("C18.R3", "C18.R3/ANCHOR-MISSING/%s/quote" % fps.key, "parse_string no longer scans for the quotation mark", fps.loc())
 
     ctx.rule("C18.R5", "A10 append-buffer discipline: GFF/GTF line readers reset the line buffer before every appended line (incl. the blank-line skip loop)")
     a10.discipline_rule(ctx, "C18.R5", r"^<?noodles_(gff|gtf)::", 6)
